@@ -18,6 +18,46 @@ CLAIMED = {
         technique="Coq proof over regenerated Severity table + exhaustive/differential correspondence",
         ref="5/C10"),
 }
+CLAIMED["C09"] = dict(
+    text="Proof: the symbolic interpreter model and the reference VM model (CPython pickle._Unpickler with inert "
+         "stand-ins) both follow one abstract shape machine, per opcode, for all 36 abstract opcodes; hence for every "
+         "program of any length and every prefix both accept, stack depth, mark positions, memo keys and the halted "
+         "flag agree (C09_shape_lockstep); tracing reports exactly the executed prefix and ends in the untraced state. "
+         "Tie: after EVERY opcode the real Interpreter.step() and an instrumented pure-Python unpickler are compared "
+         "with the models on bounded-exhaustive typed programs, random typed programs, natural pickles at protocols "
+         "0-5 and malformed programs; Trace.run is compared with untraced decompilation.",
+    note=BASE_NOTE + "Opcode merging (families) is validated by the differential run over every concrete opcode. "
+         "Where fickling consumes a MarkObject as a value the model declines (the VM rejects there; checked).",
+    technique="Coq proof: both machines refine an abstract shape machine + stepwise differential correspondence",
+    ref="5/C09")
+CLAIMED["C03"] = dict(
+    text="Proof: a simulation relation R between the reference VM and the symbolic interpreter (expressions denote VM "
+         "values in the environment of fickling's variables; node i = heap object i; module body aligned one-to-one, "
+         "in order, with the VM's event log) is preserved by every one of the 36 abstract opcodes, hence for every "
+         "program both accept every find_class / call (REDUCE, INST, OBJ, NEWOBJ, NEWOBJ_EX) / persistent load / BUILD "
+         "of the VM has its statement with the same callee and arguments (C03_events_aligned and corollaries), "
+         "whatever later pops, duplicates, memoises or strands the value; opcodes without class/run are refused "
+         "(table obligation over the regenerated pickletools/fickling opcode table). Tie: decompiled body and "
+         "value+events, real vs model, on the program corpus; plus the property itself evaluated on the real "
+         "implementation (exec of the decompiled source under inert stand-ins vs instrumented pickle._Unpickler).",
+    note=BASE_NOTE + "Partial: names are related up to the attribute name (two globals with the same attribute name from "
+         "different modules = known finding D14); a node mutated after an emitted statement captured it prints "
+         "with final contents (known finding D15); ast.unparse / Python evaluation of the emitted text is "
+         "differential only.",
+    technique="Coq proof: lockstep simulation relation over all opcodes + differential correspondence + exec oracle",
+    ref="5/C03")
+CLAIMED["C05"] = dict(
+    text="Proof (layer A): the same simulation relation R gives, for every program both machines accept (any nesting, "
+         "sharing, memo traffic): the decompiled program ends in `result = e` where e denotes the VM's value, every "
+         "mutable node holds expressions denoting the contents of the VM's object with the same index (so in-place "
+         "APPEND/SETITEM/ADDITEMS through any alias stay in sync), calls and state applications are aligned with the "
+         "VM's. Layer B (Python evaluation of the emitted text) is differential: exec(unparse(ast)) under inert "
+         "stand-ins vs the instrumented unpickler (value, events, item assignments), and for plain data at protocols "
+         "0-5 exec(result) == original object.",
+    note=BASE_NOTE + "Partial: layer B is differential only; known findings D14 (same attribute name), D15 (mutation "
+         "after capture), D17 (BUILD on a plain value, ill-typed programs).",
+    technique="Coq proof: lockstep simulation relation (value denotation) + differential exec of decompiled source",
+    ref="5/C05")
 REASON_PENDING = "not claimed yet: model/theorem under construction in this round (see DESIGN.md section 5)"
 ALL = [f"C{i:02d}" for i in range(1, 20)]
 
